@@ -46,7 +46,7 @@ _STATE = {"events": [], "active": False, "installed": False, "canary": None, "di
 
 
 def budget(tier):
-    return 2000 if tier == "quick" else 80000
+    return 10000 if tier == "quick" else 80000
 
 
 def _hook(event, args):
